@@ -22,7 +22,7 @@ var shapeKeys = []string{"a", "b", "c", "d", "k", "list", "sub", "items"}
 
 // oddKeys: legal keys with spellings that the library treats specially somewhere (reserved words of the encoders,
 // attribute/text prefixes, upper case, digits, hyphens, non-ASCII letters); used for about one field in twelve.
-var oddKeys = []string{"doc", "object", "element", "-id", "#text", "K", "k1", "ключ", "a-b", "_seq", "#seq", "-", "A", "a]", "Doc", "k ", " k", "k\t", "\u00a0k", "k\u2028"}
+var oddKeys = []string{"doc", "object", "element", "-id", "#text", "K", "k1", "ключ", "a-b", "_seq", "#seq", "-", "A", "a]", "Doc", "k ", " k", "k\t", "\u00a0k", "k\u2028", "0", "1", "k%d"}
 
 func drawFieldKey(t *rapid.T) string {
 	if rapid.IntRange(0, 11).Draw(t, "oddkey") == 0 {
@@ -60,7 +60,7 @@ func genRootShape(t *rapid.T, lil bool) *shape {
 	return s
 }
 
-var scalarStrings = []string{"x", "y", "", "z z"}
+var scalarStrings = []string{"x", "y", "", "z z", "5%", "%d"}
 
 func instScalar(t *rapid.T) interface{} {
 	switch rapid.IntRange(0, 5).Draw(t, "sc") {
